@@ -136,10 +136,18 @@ type svListen struct {
 	sent   []*signaling.ListenResponse
 	done   bool
 	err    error
+	// slowAt > 0: the slowAt-th Send blocks (a slow listen stream) until the harness closes gate
+	slowAt int
+	nsend  int
+	gate   chan struct{}
 }
 
 func (l *svListen) Context() context.Context { return l.ctx }
 func (l *svListen) Send(m *signaling.ListenResponse) error {
+	l.nsend++
+	if l.slowAt > 0 && l.nsend == l.slowAt {
+		<-l.gate
+	}
 	l.sent = append(l.sent, m)
 	return nil
 }
@@ -147,7 +155,7 @@ func (l *svListen) SendAndClose(m *signaling.ListenResponse) error { return l.Se
 
 func (w *svWorld) listen(name string, me *svPeer) *svListen {
 	ctx, cancel := context.WithCancel(context.Background())
-	l := &svListen{ctx: ctx, cancel: cancel}
+	l := &svListen{ctx: ctx, cancel: cancel, gate: make(chan struct{})}
 	w.ids[ctx] = me.id
 	rt.Go(name, func() {
 		l.err = w.srv.Listen(&signaling.ListenRequest{}, l)
